@@ -13,7 +13,7 @@
    standard_topology are named after their list of final particles: [G g].
    Quirk not modelled: standard_topology orders the parts of that name by *string* order of
    "name:id", the model by (name,id); this only changes the spelling of the name. *)
-From Coq Require Import List Arith ZArith NArith Bool.
+From Coq Require Import List Arith ZArith NArith Bool MSets.MSetPositive.
 Import ListNotations.
 
 (* ------------------------------------------------------------------ orders, sorting *)
@@ -439,3 +439,22 @@ Definition cmap_eqb (a b : option (list (list (nat * (pmap * list (option nat)))
   | None, None => true
   | _, _ => false
   end.
+
+(* pairwise distinctness of the topology ids of the enumerated chains (evaluation): the ids are
+   coded as numbers and inserted one by one into a set *)
+Definition id_code (tid : list (list particle)) : N :=
+  fold_left (fun acc g => (acc * 2097152 + group_code g)%N) tid 0%N.
+Fixpoint pos_nodup (s : PositiveSet.t) (l : list positive) : bool :=
+  match l with
+  | [] => true
+  | x :: r => if PositiveSet.mem x s then false else pos_nodup (PositiveSet.add x s) r
+  end.
+Definition distinct_ok (n : nat) : bool :=
+  pos_nodup PositiveSet.empty
+            (map (fun c => N.succ_pos (id_code (topology_id false c))) (from_particles n)).
+
+(* the reproducer of the get_chains_map defect fixed in /repo 04ce759:
+   A -> R pi:1, R -> B pi:2   and   A -> S pi:2, S -> B pi:1   (A=0, B=1, R=3, S=4, pi=2) *)
+Definition swapped_identical_group : list chain :=
+  [ [(P 0 0, [P 3 0; P 2 1]); (P 3 0, [P 1 0; P 2 2])];
+    [(P 0 0, [P 4 0; P 2 2]); (P 4 0, [P 1 0; P 2 1])] ].
